@@ -187,7 +187,7 @@ def c31(pid, tier):
                     replays[name] = (ok, path, name + "; " + "; ".join(str(o.get("detail")) for o in rp))
     rc, known = finish(pid, S.results, replays, inconcl)
     csxlib.write_evidence(pid, tier, t0, [S], ["zk_circuits_common::gadgets::sort_digests4 (split_canonical_u32_halves, halves8_lt, u32_lt, select network, recombination)"],
-                          {"list_length": f"n in {ns} (every input list of that length over all canonical limbs, every hint assignment)",
+                          {"list_length": f"n in {ns} (every input list of that length over all canonical limbs, every hint assignment); for n = 4 only 'permutation' and 'every list has a witness' are asked, ascending order is claimed for n <= 3",
                            "outside": "n > %d (the network is an odd-even transposition loop over n; no induction over n is attempted)" % ns[-1]},
                           GADGET_ASSUME, extra={"encoding": stats, "states": len(ns), "transitions": len(S.results)},
                           traces_validated=nval_tot, violations=1 if rc == 1 else 0, known=known)
